@@ -25,14 +25,36 @@ import (
 	"verif.local/harness/inject"
 )
 
-// Truncate is the partial-effect mode (see above).  It extends inject.Mode.
-const Truncate inject.Mode = 100
+// Truncate is the partial-effect mode (see above and inject.Truncate).
+const Truncate = inject.Truncate
 
-func modeName(m inject.Mode) string {
-	if m == Truncate {
-		return "truncate"
+func modeName(m inject.Mode) string { return m.String() }
+
+// failingBody serves data and then fails with err instead of io.EOF.
+type failingBody struct {
+	data []byte
+	err  error
+}
+
+func (f *failingBody) Read(p []byte) (int, error) {
+	if len(f.data) == 0 {
+		return 0, f.err
 	}
-	return m.String()
+	n := copy(p, f.data)
+	f.data = f.data[n:]
+	return n, nil
+}
+
+func (f *failingBody) Close() error { return nil }
+
+// halfBody replaces rc by a body that delivers the first half of rc's bytes and then fails.
+func halfBody(rc io.ReadCloser) io.ReadCloser {
+	b, err := io.ReadAll(rc)
+	rc.Close()
+	if err != nil {
+		return &failingBody{err: err}
+	}
+	return &failingBody{data: b[:len(b)/2], err: errInjected}
 }
 
 var errInjected = inject.ErrInjected
@@ -125,19 +147,29 @@ func wrapStore(name string, inner blobserver.Storage, p *fplan) blobserver.Stora
 }
 
 func (s *fstoreSub) SubFetch(ctx context.Context, ref blob.Ref, off, length int64) (io.ReadCloser, error) {
-	switch s.p.enter(s.name, "SubFetch", ref.String(), false) {
-	case inject.Error, inject.ErrorAfterEffect, Truncate:
+	m := s.p.enter(s.name, "SubFetch", ref.String(), false)
+	switch m {
+	case inject.Error, inject.ErrorAfterEffect:
 		return nil, errInjected
 	}
-	return s.inner.(blob.SubFetcher).SubFetch(ctx, ref, off, length)
+	rc, err := s.inner.(blob.SubFetcher).SubFetch(ctx, ref, off, length)
+	if m == Truncate && err == nil {
+		return halfBody(rc), nil // the body fails half way
+	}
+	return rc, err
 }
 
 func (s *fstore) Fetch(ctx context.Context, ref blob.Ref) (io.ReadCloser, uint32, error) {
-	switch s.p.enter(s.name, "Fetch", ref.String(), false) {
-	case inject.Error, inject.ErrorAfterEffect, Truncate:
+	m := s.p.enter(s.name, "Fetch", ref.String(), false)
+	switch m {
+	case inject.Error, inject.ErrorAfterEffect:
 		return nil, 0, errInjected
 	}
-	return s.inner.Fetch(ctx, ref)
+	rc, size, err := s.inner.Fetch(ctx, ref)
+	if m == Truncate && err == nil {
+		return halfBody(rc), size, nil // the body fails half way
+	}
+	return rc, size, err
 }
 
 func (s *fstore) ReceiveBlob(ctx context.Context, br blob.Ref, src io.Reader) (blob.SizedRef, error) {
@@ -156,7 +188,13 @@ func (s *fstore) ReceiveBlob(ctx context.Context, br blob.Ref, src io.Reader) (b
 
 func (s *fstore) StatBlobs(ctx context.Context, blobs []blob.Ref, fn func(blob.SizedRef) error) error {
 	switch s.p.enter(s.name, "StatBlobs", fmt.Sprintf("%d refs", len(blobs)), false) {
-	case inject.Error, inject.ErrorAfterEffect, Truncate:
+	case inject.Error, inject.ErrorAfterEffect:
+		return errInjected
+	case Truncate:
+		// half of the refs are reported, then the stat fails
+		if err := s.inner.StatBlobs(ctx, blobs[:len(blobs)/2], fn); err != nil {
+			return err
+		}
 		return errInjected
 	}
 	return s.inner.StatBlobs(ctx, blobs, fn)
@@ -207,7 +245,13 @@ func (s *fstore) RemoveBlobs(ctx context.Context, blobs []blob.Ref) error {
 	arg := fmt.Sprintf("%d refs", len(blobs))
 	m := s.p.enter(s.name, "RemoveBlobs", arg, true)
 	switch m {
-	case inject.Error, Truncate:
+	case inject.Error:
+		return errInjected
+	case Truncate:
+		// half of the refs are removed, then the remove fails
+		if err := s.inner.RemoveBlobs(ctx, blobs[:len(blobs)/2]); err != nil {
+			return err
+		}
 		return errInjected
 	}
 	err := s.inner.RemoveBlobs(ctx, blobs)
@@ -223,6 +267,8 @@ type fkv struct {
 	name  string
 	inner sorted.KeyValue
 	p     *fplan
+	// deferBatches: the inner store's batches hold a resource until committed (see fbatch)
+	deferBatches bool
 }
 
 func wrapKV(name string, inner sorted.KeyValue, p *fplan) *fkv {
@@ -263,14 +309,68 @@ func (k *fkv) Delete(key string) error {
 	return err
 }
 
-func (k *fkv) BeginBatch() sorted.BatchMutation { return k.inner.BeginBatch() }
+// fbatch is the batch handed out over a key/value store whose batches own a resource from
+// BeginBatch until CommitBatch (the SQL ones: a transaction plus the store's access gate).
+// The inner batch is begun when perkeep begins it (so the resource is really held while the
+// batch is open); the mutations are recorded and only applied at commit, so that a failing
+// commit can do what a failing SQL commit does: apply nothing and release the resource.
+type fbatch struct {
+	inner sorted.BatchMutation
+	mu    sync.Mutex
+	muts  []fmut
+}
+
+type fmut struct {
+	del      bool
+	key, val string
+}
+
+func (b *fbatch) Set(key, value string) {
+	b.mu.Lock()
+	b.muts = append(b.muts, fmut{key: key, val: value})
+	b.mu.Unlock()
+}
+
+func (b *fbatch) Delete(key string) {
+	b.mu.Lock()
+	b.muts = append(b.muts, fmut{del: true, key: key})
+	b.mu.Unlock()
+}
+
+func (k *fkv) BeginBatch() sorted.BatchMutation {
+	if k.deferBatches {
+		return &fbatch{inner: k.inner.BeginBatch()}
+	}
+	return k.inner.BeginBatch()
+}
 
 func (k *fkv) CommitBatch(b sorted.BatchMutation) error {
 	arg := ""
+	fb, deferred := b.(*fbatch)
 	if bm, ok := b.(interface{ Mutations() []sorted.Mutation }); ok {
 		arg = fmt.Sprintf("%d mutations", len(bm.Mutations()))
+	} else if deferred {
+		arg = fmt.Sprintf("%d mutations", len(fb.muts))
 	}
 	m := k.p.enter(k.name, "CommitBatch", arg, true)
+	if deferred {
+		if m != inject.Error && m != Truncate {
+			for _, mu := range fb.muts {
+				if mu.del {
+					fb.inner.Delete(mu.key)
+				} else {
+					fb.inner.Set(mu.key, mu.val)
+				}
+			}
+		}
+		// committing the (for a failed commit: empty) inner batch ends the transaction and
+		// releases the store's gate, as the SQL CommitBatch does on every path
+		err := k.inner.CommitBatch(fb.inner)
+		if m != inject.Pass {
+			return errInjected
+		}
+		return err
+	}
 	switch m {
 	case inject.Error, Truncate:
 		return errInjected
